@@ -99,7 +99,9 @@ pub fn run(args: &Args, rep: &mut Report) {
                         for _ in 0..r.gen_range(0..10) {
                             tokio::task::yield_now().await;
                         }
-                        log.lock().unwrap().push(Ev::Requested(n));
+                        // `Requested` is logged by the task that polls `request()` first, immediately before that poll (the
+                        // insertion happens in the first poll): logging it earlier, before the cancellation scope has even
+                        // started its main task, would claim the block was waiting while it was not in the queue yet
                         let res = if do_cancel {
                             // the requester gives up after some steps
                             let steps = r.gen_range(0..30);
@@ -112,11 +114,13 @@ pub fn run(args: &Args, rep: &mut Report) {
                                     s2.cancel();
                                     Ok::<(), ()>(())
                                 });
+                                log.lock().unwrap().push(Ev::Requested(n));
                                 Ok(q.request(ctx, validator::BlockNumber(n)).await)
                             })
                             .await
                             .unwrap()
                         } else {
+                            log.lock().unwrap().push(Ev::Requested(n));
                             q.request(ctx, validator::BlockNumber(n)).await
                         };
                         log.lock().unwrap().push(if res.is_ok() { Ev::ReturnedOk(n) } else { Ev::ReturnedCanceled(n) });
